@@ -17,8 +17,8 @@ ROOT = os.path.dirname(os.path.dirname(os.path.abspath(__file__)))
 MODEL_FILES = ["Base.v", "Hex.v", "Frame.v", "Message.v", "SignType.v", "Page.v", "VSign.v", "Controller.v", "Io.v", "Serial.v", "Port.v"]
 # which properties' cases exercise which model file (a superset is harmless, it only costs time)
 USERS = {
-    "Base.v": ["C01", "C06", "C13"], "Hex.v": ["C01", "C03"], "Frame.v": ["C01", "C02", "C03", "C05", "C15"],
-    "Message.v": ["C04", "C05", "C13"], "SignType.v": ["C19", "C13", "C08"], "Page.v": ["C06", "C07", "C08"],
+    "Base.v": ["C01", "C06", "C13", "C10"], "Hex.v": ["C01", "C03"], "Frame.v": ["C01", "C02", "C03", "C05", "C15"],
+    "Message.v": ["C04", "C05", "C13", "C10", "C09", "C16"], "SignType.v": ["C19", "C13", "C08"], "Page.v": ["C06", "C07", "C08"],
     "VSign.v": ["C12", "C13", "C14", "C08"], "Controller.v": ["C09", "C10", "C11", "C08"], "Io.v": ["C15", "C16", "C17"],
     "Serial.v": ["C16", "C17", "C18"], "Port.v": ["C20"],
 }
